@@ -512,8 +512,19 @@ def judge_differential(job, refs, out):
             if nonascii and regex_is_loose(exts[pos].regex) and any(ord(c) > 127 for c in near):
                 st["out_of_domain"] += 1
                 continue
+            # Hyperscan reports one start (the leftmost) per end offset.  When the
+            # reference's previous match of the same pattern consumed the boundary
+            # in front of a longer reading, the reference restarts later and finds
+            # a token that Hyperscan only reports in its longer, leftmost form.
+            shadow = [h for h in b["cand"] if h[-1] == pos and h[2] == e and h[1] < s]
+            shadowed = False
+            if shadow:
+                s_l = min(h[1] for h in shadow)
+                prev_ends = [q[2] for q in r["cand"] if q[-1] == pos and q[2] < s]
+                shadowed = any(s_l - 1 <= pe <= s - 1 for pe in prev_ends)
             viol.append({"class": "missing_candidate", "text": text, "ti": ti,
                          "token": list(k[:4]), "ext_pos": pos,
+                         "shadowed_by_leftmost": shadowed or None,
                          "neighbour_nonascii": bool(
                              (s > 0 and ord(text[s - 1]) > 127) or (e < len(text) and ord(text[e]) > 127))})
         for k, cnt in sorted(extra.items(), key=repr):
@@ -1047,7 +1058,7 @@ class RunGen:
 # --------------------------------------------------------------------------
 
 TIERS = {
-    "quick": {"swarm": 220, "full": 0, "swarm_s": 80, "full_s": 0},
+    "quick": {"swarm": 600, "full": 0, "swarm_s": 75, "full_s": 0},
     "thorough": {"swarm": 6000, "full": 10, "swarm_s": 900, "full_s": 700},
 }
 
@@ -1058,7 +1069,8 @@ def _cpu():
 
 def signature_of(v):
     sig = {"class": v["class"]}
-    for k in ("exc", "fault_kind", "fault_field", "where", "neighbour_nonascii", "signal", "exit"):
+    for k in ("exc", "fault_kind", "fault_field", "where", "neighbour_nonascii", "shadowed_by_leftmost",
+              "signal", "exit"):
         if v.get(k) is not None:
             sig[k] = v[k]
     return sig
@@ -1112,6 +1124,8 @@ class Checker:
             self.classes[k] += v
         for t in job["texts"]:
             self.texts_seen.add(seeds.h64(t))
+        if job["kind"] == "probe":
+            self.probes_done = getattr(self, "probes_done", 0) + 1
         if job["kind"] == "grid":
             self.grid_done += 1
             lives = [x[2] for x in res["log"] if x[0] == "life"]
@@ -1300,7 +1314,21 @@ def run(tier, verif_seed, log=print):
     gen = RunGen(atlas, tier)
     grid = gen.grid(ck.root)
     ck.grid_cells = len(grid)
-    ck.phase(grid, None, LIFE_TIMEOUT * 5, may_stop=False)
+    # directed probes: every listed known finding is exercised on every run, so
+    # that it is re-detected (KNOWN-FINDING line) for as long as it exists
+    probes = []
+    for k in report_mod.load_known(PROP):
+        pj = k.get("probe_job")
+        if not pj:
+            continue
+        pj = dict(pj)
+        rep = k.get("probe_reporter")
+        if rep:
+            idx = sorted({i for a in atlas if a.get("rep") == rep and a["form"] == "full" for i in a["x"]})
+            if idx:
+                pj["ext"] = idx
+        probes.append(pj)
+    ck.phase(grid + probes, None, LIFE_TIMEOUT * 5, may_stop=False)
     log(f"[C14] grid: {ck.grid_done}/{ck.grid_cells} cells, lifetimes={ck.tot['lifetimes']}, "
         f"suspects={len(ck.suspects)} ({time.monotonic() - t0:.1f}s)")
     jobs = (gen.run(seeds.run_seed(ck.root, i)) for i in range(ck.cfg["swarm"]))
